@@ -78,6 +78,8 @@ def catalog():
         byname.setdefault(v, []).append(k)
     # distinct codes that the table gives the same name (pairing is by code, never by name)
     _cat['same_name_codes'] = [ks for v, ks in sorted(byname.items()) if len(ks) >= 2]
+    _cat['names_ids'] = sorted(ids[n] for n in _cat['names'])
+    _cat['all_ids'] = set(table)
     return _cat
 
 
@@ -245,7 +247,7 @@ def gen_ops(rng, ctx, n_ops, mix=None, depth=0):
     """A thread program of about n_ops ops drawn from the families in `mix` (dict family -> weight)."""
     cat = catalog()
     mix = mix or {'bsd': 5, 'path': 3, 'mach': 2, 'turnstile': 1, 'dyld': 1, 'perf': 1, 'tracedom': 2, 'lookup': 1,
-                  'gstr': 1, 'undecoded': 1, 'unknown': 1, 'single': 1}
+                  'gstr': 1, 'undecoded': 1, 'unknown': 1, 'single': 1, 'anydecodable': 1}
     fams = [f for f in sorted(mix) if mix[f] > 0]
     weights = [mix[f] for f in fams]
     ops = []
@@ -268,7 +270,8 @@ def gen_ops(rng, ctx, n_ops, mix=None, depth=0):
             nfr = rng.randint(0, 9)
             rows = [[rng.randrange(1, 1 << 40) for _ in range(4)] for _ in range((nfr + 3) // 4)]
             ops.append(op_sample(rng, thd=(ctx.new_pid(), rng.pick(ctx.peers) if ctx.peers and rng.chance(0.4) else ctx.tid) if rng.chance(0.5) else None,
-                                 uhdr=(rng.randrange(0, 512), nfr) if rng.chance(0.7) else None, udata=rows))
+                                 uhdr=(rng.randrange(0, 512), nfr) if rng.chance(0.7) else None, udata=rows,
+                                 flags=rng.pick([None, None, 8, 9, 1, 0, 0xa, 0x3fff]), actionid=rng.pick([1, 1, 2])))
         elif f == 'tracedom':
             r = rng.random()
             if r < 0.3:
@@ -301,9 +304,18 @@ def gen_ops(rng, ctx, n_ops, mix=None, depth=0):
                             [{'k': 'raw', 'id': eid, 'q': 2, 'a': rng.words()}]})
         elif f == 'unknown':
             eid = 0xf0000000 | (rng.randrange(0, 1 << 20) << 2)
+            if rng.chance(0.4):
+                # an id the table does not list, inside a subclass it knows well (next to the trace, BSD, mach, dyld, perf codes)
+                eid = (rng.pick(cat['names_ids']) & 0xffff0000) | (rng.randrange(0x300, 0x3fff) << 2)
+                if eid in cat['all_ids']:
+                    eid = 0xf0000000 | (rng.randrange(0, 1 << 20) << 2)
             ops.append({'k': 'raw', 'id': eid, 'q': rng.randrange(4), 'a': rng.words()})
         elif f == 'single':
             ops.append(op_single(rng, rng.pick(cat['mach'] + cat['turnstile'] + cat['perf'][1:])))
+        elif f == 'anydecodable':
+            # whatever the live decoder tables hold (also names a change to the tree has just made decodable), as a single
+            name = rng.pick([n for n in cat['names'] if n not in SPECIAL and n not in DYLD_STRING_ARG])
+            ops.append({'k': 'one', 'name': name, 'q': rng.pick([0, 3]), 'a': domains.draw_single(rng, name)})
     return ops
 
 
